@@ -13,7 +13,9 @@ oracle      : the statement itself on the implementation: raw state snapshot (ev
 from __future__ import annotations
 
 import json
+import shutil
 import sys
+import tempfile
 import types
 from fractions import Fraction
 
@@ -1028,6 +1030,156 @@ def sweepval_predicate(case, impl):
     return None
 
 
+# ------------------------------------------------------------------ calibration: several variables, every declaration order
+def gen_calvars_case(rng, world, proc):
+    keys = all_setting_keys(world, proc.detector)
+    args = [k for k in keys if len(k) == 5]
+    dets = [k for k in keys if k[0] == "detector" and k[2] in ("quantum_efficiency", "temperature", "total_thickness", "pre_amplification",
+                                                              "full_well_capacity", "pixel_vert_size")]
+    if len(args) < 2:
+        return None
+    n = min(len(args), rng.choice([2, 3, 3, 4]))
+    chosen = rng.sample(args, n) + (rng.sample(dets, 1) if dets and rng.random() < 0.5 else [])
+    vars_ = []
+    for k in chosen:
+        w = None if k[0] == "detector" else rng.choice([None, None, 1, 2, 3])
+        vars_.append([k, w])
+    rng.shuffle(vars_)
+    if rng.random() < 0.5:   # the order "vector of >= 2, scalar, something else"
+        a = [v for v in vars_ if v[0][0] != "detector"]
+        a[0][1], a[1][1] = rng.choice([2, 3]), None
+        vars_ = [a[0], a[1]] + [v for v in vars_ if v is not a[0] and v is not a[1]]
+    xs = []
+    for i, (k, w) in enumerate(vars_):
+        for j in range(w or 1):
+            xs.append(0.125 * (len(xs) + 1) if k[-1] == "quantum_efficiency" else 100.0 + 7.5 * len(xs))
+    return {"stream": "calvars", "world": world, "vars": vars_, "xs": [x.hex() for x in xs], "probes": keys}
+
+
+def run_calvars_impl(case):
+    import numpy as np
+    from pyxel.calibration.fitting_datatree import ModelFittingDataTree
+    from pyxel.observation import ParameterValues
+
+    proc = build(case["world"])
+    out = {"det_tree": detector_tree(proc.detector), "extras": extras_of(proc)}
+    snap0 = raw_snapshot(proc)
+    out["before"] = [probe_get(proc, p) for p in case["probes"]]
+    vars_ = [ParameterValues(key=".".join(k), values="_" if w is None else ["_"] * w, boundaries=(0.0, 1.0e9)) for k, w in case["vars"]]
+    vec = np.array([float.fromhex(h) for h in case["xs"]])
+    r = attempt(ModelFittingDataTree.update_processor, types.SimpleNamespace(_variables=vars_), vec, proc)
+    out["orig_diff"] = snap_diff(snap0, raw_snapshot(proc))
+    if "ok" not in r:
+        out["err"], out["msg"] = r["err"], r.get("msg")
+        return out
+    new = r["ok"]
+    out["after"] = [probe_get(new, p) for p in case["probes"]]
+    return out
+
+
+def calvars_expected(case):
+    import numpy as np
+
+    vec = np.array([float.fromhex(h) for h in case["xs"]])
+    exp, a = {}, 0
+    for k, w in case["vars"]:
+        exp[".".join(k)] = vec[a] if w is None else vec[a:a + w].copy()
+        a += w or 1
+    return exp
+
+
+def calvars_predicate(case, impl):
+    order = ", ".join("%s%s" % (k[-1], "" if w is None else "[%d]" % w) for k, w in case["vars"])
+    if impl["orig_diff"]:
+        return "calibration:original-changed", "update_processor changed the processor it was given at %s" % impl["orig_diff"]
+    if "err" in impl:
+        return "calibration:variables-refused", "variables (%s), all existing settings, were refused: %s %s" % (order, impl["err"], impl.get("msg"))
+    exp = calvars_expected(case)
+    for i, p in enumerate(case["probes"]):
+        d = ".".join(p)
+        if d in exp:
+            want = {"ok": {"v": canon_py(exp[d])}}
+            if impl["after"][i] != want:
+                return ("calibration:read-back", "variables in the order (%s): %r reads %s, its slice of the decision vector is %s"
+                        % (order, d, json.dumps(impl["after"][i]), json.dumps(want)))
+        elif impl["after"][i] != impl["before"][i]:
+            return "calibration:frame", "variables (%s): the unrelated setting %r changed from %s to %s" % (order, d, impl["before"][i], impl["after"][i])
+    return None
+
+
+# ------------------------------------------------------------------ command line: pyxel.run(file, override=["key=value"])
+OVERRIDE_TEXTS = [("run=7/flat.fits", None), ("a==b", None), ("x=1", None), ("=5", None), ("7=", None), ("'a=b'", None),
+                  ("a,b", "a,b"), ("img:2.fits", "img:2.fits"), ("k: v", "k: v"), ("a;b", "a;b")]
+
+
+def gen_override_case(rng):
+    r = rng.random()
+    if r < 0.4:
+        t, d = rng.choice(OVERRIDE_TEXTS)
+    elif r < 0.7:
+        t, d = rng.choice(QUOTED_TEXTS)
+    else:
+        t, d = rng.choice(PLAIN_TEXTS)
+    key = rng.choice(["pipeline.photon_collection.tag.arguments.label"] * 4 + ["pipeline.photon_collection.tag.arguments.labl",
+                                                                            "pipeline.photon_collection.tg.arguments.label"])
+    return {"stream": "override", "key": key, "text": t, "denotes": None if "=" in t else tag(d)}
+
+
+OVERRIDE_DOC = {
+    "exposure": {"readout": {"times": [1.0]}},
+    "ccd_detector": {"geometry": {"row": 3, "col": 4, "total_thickness": 10.0, "pixel_vert_size": 10.0, "pixel_horz_size": 10.0},
+                     "environment": {"temperature": 100.0},
+                     "characteristics": {"quantum_efficiency": 0.5, "charge_to_volt_conversion": 1e-6, "pre_amplification": 10.0,
+                                         "adc_bit_resolution": 16, "adc_voltage_range": [0.0, 5.0], "full_well_capacity": 1000}},
+    "pipeline": {"photon_collection": [{"name": "tag", "func": "probes.trace", "enabled": True, "arguments": {"label": "orig", "level": 1}}]},
+}
+
+
+def run_override_impl(case, tmp):
+    import probes
+    import pyxel
+    import yaml
+
+    path = tmp + "/override.yaml"
+    with open(path, "w") as f:
+        f.write(yaml.safe_dump(OVERRIDE_DOC, sort_keys=False))
+    probes.reset()
+    r = attempt(pyxel.run, path, ["%s=%s" % (case["key"], case["text"])])
+    got = [json.loads(x[3]).get("label", "<absent>") for x in probes.LOG if x[2] == "tag"]
+    return {"run": "ok" if "ok" in r else r["err"], "msg": r.get("msg"), "received": got}
+
+
+def override_predicate(case, impl):
+    from probes import _canon_val
+
+    el = "%s=%s" % (case["key"], case["text"])
+    valid_key = case["key"].endswith(".tag.arguments.label")
+    rejected = impl["run"] != "ok" and not impl["received"]
+    if not valid_key:
+        return None if rejected else ("override:accepts-nonexistent-key", "override %r names no setting but the run went on: %s" % (el, impl))
+    if case["denotes"] is None:           # the value contains '=': converted as written, or refused before anything runs
+        if rejected:
+            return None
+        want = json.loads(json.dumps(_canon_val(denote_text(case["text"]))))
+        if impl["received"] != [want]:
+            return ("override:value-truncated", "override %r: the model received %s — neither refused nor the value written (%s)"
+                    % (el, json.dumps(impl["received"]), json.dumps(want)))
+        return None
+    want = json.loads(json.dumps(_canon_val(untag(case["denotes"]))))
+    if impl["run"] != "ok":
+        return "override:valid-refused", "override %r of an existing setting was refused: %s %s" % (el, impl["run"], impl["msg"])
+    if impl["received"] != [want]:
+        return "override:wrong-conversion", "override %r: the model received %s, the text denotes %s" % (el, json.dumps(impl["received"]), json.dumps(want))
+    return None
+
+
+def denote_text(t):
+    """what a text that is not in the literal grammar denotes: itself, or the content of its quotes"""
+    if len(t) >= 2 and t[0] == t[-1] and t[0] in "'\"":
+        return t[1:-1]
+    return t
+
+
 # ------------------------------------------------------------------ histories: sets interleaved with copies
 COPY_KINDS = ["deepcopy", "replace", "create_new_processor", "update_processor"]
 
@@ -1256,7 +1408,19 @@ def body(ck: common.Check):
         if c is not None and len(c["values"]) >= 2:
             sv_cases.append(c)
 
+    # ---- stream 6: calibration with several scalar / vector variables in every declaration order
+    cal_cases = []
+    for _ in range(60 if quick else 600):
+        w = gen_world(rng)
+        c = gen_calvars_case(rng, w, build(w))
+        if c is not None:
+            cal_cases.append(c)
+    # ---- stream 7: command-line overrides
+    ov_cases = [gen_override_case(rng) for _ in range(30 if quick else 200)]
+    ov_cases += [{"stream": "override", "key": "pipeline.photon_collection.tag.arguments.label", "text": t, "denotes": None} for t, _ in OVERRIDE_TEXTS[:6]]
+
     # implementation first (the detector tree sent to the model is read off the real objects)
+    cal_impl = [run_calvars_impl(c) for c in cal_cases]
     hist_impl = [run_history_impl(c) for c in hist_cases]
     key_impl = [run_key_impl(c) for c in key_cases]
     val_impl = [run_validate_impl(c) for c in val_cases]
@@ -1283,6 +1447,14 @@ def body(ck: common.Check):
     for c in sv_cases:
         for v in c["values"]:
             reqs.append({"op": "eval", "text": v if isinstance(v, str) else render(py_to_lit(v))})
+    n_before_cal = len(reqs)
+    for c, im in zip(cal_cases, cal_impl):
+        import numpy as np
+
+        reqs.append({"op": "calupdate", "det": im["det_tree"], "extras": im["extras"], "cfg": cfg_json(c["world"]), "probes": c["probes"],
+                     "vars": c["vars"], "xs": [canon_py(np.float64(float.fromhex(h))) for h in c["xs"]]})
+    for c in ov_cases:
+        reqs.append({"op": "override", "element": "%s=%s" % (c["key"], c["text"])})
     answers = LeanDriver("C08").batch(reqs)
     for a in answers:
         if "bad" in a:
@@ -1291,7 +1463,9 @@ def body(ck: common.Check):
     a_key = answers[len(eval_cases): len(eval_cases) + len(key_cases)]
     a_val = answers[len(eval_cases) + len(key_cases): n_before_hist]
     a_hist = answers[n_before_hist:n_before_sv]
-    a_sv = answers[n_before_sv:]
+    a_sv = answers[n_before_sv:n_before_cal]
+    a_cal = answers[n_before_cal:n_before_cal + len(cal_cases)]
+    a_ov = answers[n_before_cal + len(cal_cases):]
 
     from pyxel.evaluator import eval_entry
 
@@ -1371,6 +1545,45 @@ def body(ck: common.Check):
             first = next(i for i, (a, b) in enumerate(zip(iv, mv)) if a != b)
             ck.disagreement("history", {k: c[k] for k in ("world", "steps")}, {"step": first, "impl": iv[first]}, mv[first])
 
+    for c, im, ans in zip(cal_cases, cal_impl, a_cal):
+        import numpy as np
+
+        ck.case({kk: c[kk] for kk in ("world", "vars", "xs")}, nontrivial=True, stream="calvars")
+        ck.count("calvars:order=" + ",".join("s" if w is None else "v%d" % w for _, w in c["vars"]))
+        why = calvars_predicate(c, im)
+        if why is not None:
+            ck.violation("C08:" + why[0], why[1], {"case": c, "impl": {kk: v for kk, v in im.items() if kk not in ("det_tree", "extras")}})
+        if "after" in im and "ok" in ans:
+            def as_model(x):      # an array read back -> the list of its elements, as the model writes a slice
+                v = x.get("ok", {}).get("v") if isinstance(x, dict) else None
+                if isinstance(v, dict) and str(v.get("s", "")).startswith("<ndarray dtype=float64 shape=["):
+                    vals = json.loads(v["s"][v["s"].index("values=") + 7:-1])
+                    return {"ok": {"v": {"l": [canon_py(np.float64(float.fromhex(h))) for h in vals]}}}
+                return x
+            iv = [as_model(x) for x in im["after"]]
+            mv = [norm_model_val(x) for x in ans["after"]]
+            if iv != mv:
+                ck.disagreement("calvars", {kk: c[kk] for kk in ("world", "vars", "xs")}, iv, mv)
+        elif ("after" in im) != ("ok" in ans):
+            ck.disagreement("calvars", {kk: c[kk] for kk in ("world", "vars", "xs")}, im.get("err", "ok"), ans)
+
+    tmp_ov = tempfile.mkdtemp(prefix="verif-c08-")
+    try:
+        for c, ans in zip(ov_cases, a_ov):
+            impl = run_override_impl(c, tmp_ov)
+            ck.case(c, nontrivial=True, stream="override")
+            ck.count("override:" + ("with-equals" if "=" in c["text"] else "plain") + "=" + impl["run"])
+            why = override_predicate(c, impl)
+            if why is not None:
+                ck.violation("C08:" + why[0], why[1], {"case": c, "impl": impl})
+            if c["key"].endswith(".tag.arguments.label"):
+                from probes import _canon_val
+                m_rej = "err" in ans or "err" in ans.get("value", {})
+                if m_rej != (impl["run"] != "ok"):
+                    ck.disagreement("override", c, impl, ans)
+    finally:
+        shutil.rmtree(tmp_ov, ignore_errors=True)
+
     k = 0
     for c in sv_cases:
         impl = run_sweepval_impl(c)
@@ -1386,7 +1599,10 @@ def body(ck: common.Check):
             if isinstance(v, str) and model != {"ok": canon_py(untag(t))}:
                 ck.disagreement("sweepval", {"text": v}, {"ok": canon_py(untag(t))}, model)
 
-    ck.rule = ("sweepval: sweeps over a declared argument of an enabled model with 2-5 values — quoted literals ('\"42\"', \"'3.5'\", "
+    ck.rule = ("calvars: the real update_processor with 2-5 calibration variables (model arguments as scalar '_' or vector of 1-3 '_', "
+               "numeric detector fields) in shuffled declaration orders incl. vector-first, distinct decision-vector entries, every "
+               "setting read back; override: pyxel.run(file, override=['key=value']) with values containing '=', ',', ':', ';', quotes, "
+               "literals and bare words (the probe model records what it receives); sweepval: sweeps over a declared argument of an enabled model with 2-5 values — quoted literals ('\"42\"', \"'3.5'\", "
                "'\"True\"', '\"[1, 2]\"', '\"None\"', …), plain literals, bare words, numbers — product and sequential mode, sequential "
                "and with_dask observation; the probe model records type and value it receives at every step; "
                "history: random pipelines, 3-8 steps on a growing family of processors (Processor.set, copy.deepcopy, "
@@ -1438,6 +1654,18 @@ def replay(rp):
         impl = run_key_impl(case)
         print("impl:", {k: v for k, v in impl.items() if k not in ("det_tree", "extras")})
         why = key_predicate(case, impl)
+    elif st == "calvars":
+        impl = run_calvars_impl(case)
+        print("impl:", {k: v for k, v in impl.items() if k not in ("det_tree", "extras")})
+        why = calvars_predicate(case, impl)
+    elif st == "override":
+        tmp = tempfile.mkdtemp(prefix="verif-c08-")
+        try:
+            impl = run_override_impl(case, tmp)
+        finally:
+            shutil.rmtree(tmp, ignore_errors=True)
+        print("impl:", impl)
+        why = override_predicate(case, impl)
     elif st == "sweepval":
         impl = run_sweepval_impl(case)
         print("impl:", impl)
